@@ -63,6 +63,25 @@ func Check(r *core.Run) error {
 			return fmt.Errorf("%w: IsolationMC does not find the mistake %s (the model lost its teeth)", tlc.ErrInfra, m)
 		}
 	}
+	// the streamed-body design: Close joins the writer (and always returns); without the join TLC
+	// finds Close returned while the callback runs (negative control)
+	bw := func(mistakes string, props ...string) (*tlc.Result, error) {
+		lines := append([]string{"SPECIFICATION Spec", "CONSTANTS", " Chunks = 3", " Mistakes = " + mistakes, "INVARIANT Joined"}, props...)
+		return tlc.Run(nil, tlc.Options{SpecDir: obs.SpecDir, Module: "BodyWriterMC", Timeout: 5 * time.Minute, Scratch: r.Scratch, Workers: 2,
+			Cfg: tlc.Cfg(append(lines, "CHECK_DEADLOCK FALSE")...)})
+	}
+	if res, err := bw("{}", "PROPERTY CloseTerminates"); err != nil {
+		return err
+	} else if res.Violated != "" {
+		return fmt.Errorf("%w: BodyWriterMC violates %s", tlc.ErrInfra, res.Violated)
+	} else {
+		r.AddStates(res.Distinct, res.Generated)
+	}
+	if neg, err := bw(`{"NoJoin"}`); err != nil {
+		return err
+	} else if neg.Violated == "" {
+		return fmt.Errorf("%w: BodyWriterMC does not find the mistake NoJoin (the model lost its teeth)", tlc.ErrInfra)
+	}
 	pp, err := c01.Prepare(r, true, true)
 	if err != nil {
 		return err
